@@ -217,4 +217,26 @@ theorem opsOf_records {nS nM : Nat} {es : List MEv} {ev : MEv} (hev : ev ∈ es)
   · exact runI_records hmem (by rw [evIns_peg h]; exact stepI_records_peg _) _
   · exact runI_records hmem (by rw [evIns_mtab h]; exact stepI_records_mtab _) _
 
+theorem runI_records_or {I : List Ins} {i : Ins} (hi : i ∈ I) {o1 o2 : Op}
+    (h : ∀ s, o1 ∈ (stepI i s).2 ∨ o2 ∈ (stepI i s).2) (s : Bool × List Op) : o1 ∈ (runI I s).2 ∨ o2 ∈ (runI I s).2 := by
+  induction I generalizing s with
+  | nil => cases hi
+  | cons j I ih =>
+    rw [runI_cons]
+    rcases List.mem_cons.mp hi with rfl | hi'
+    · rcases h s with h1 | h1
+      · exact .inl (runI_mono I _ h1)
+      · exact .inr (runI_mono I _ h1)
+    · exact ih hi' _
+
+/-- a note of non-zero length is decoded as a note instruction (a drum-routine call when the
+decoder's drum flag is set) -/
+theorem opsOf_records_note {nS nM : Nat} {es : List MEv} {ev : MEv} (hev : ev ∈ es) (h1 : mds_NOTE ≤ ev.type)
+    (h2 : ev.type < mds_SLR) (ha : ev.arg ≠ 0) (drum : Bool) :
+    Op.drumNote (ev.type - mds_NOTE) ∈ opsOf nS nM es drum ∨ Op.note (ev.type - mds_NOTE) ∈ opsOf nS nM es drum := by
+  have hmem : evIns nS nM ev ∈ es.map (evIns nS nM) := List.mem_map.mpr ⟨ev, hev, rfl⟩
+  unfold opsOf
+  simp only [List.mem_reverse]
+  exact runI_records_or hmem (by rw [evIns_note h1 h2 ha]; exact stepI_records_note h1 h2) _
+
 end Ctrmml.MdsRead
